@@ -75,10 +75,11 @@ def lazy_graphs(name, seeds, work):
     """real lazy traversals (parse on demand) with the parse recorder installed; returns snapshots after the traversal"""
     from ..sched import pool as P
     restr, nets = R.SELECTIONS[name][:2]
+    vm_strs, _ = R.vm_strs_of(name)
     rec = S.ParseRecorder()
     rec.install()
     try:
-        inst = P.Instance("lazy_" + name, restr, nets, {"test_timeout": 100}, lazy=True)
+        inst = P.Instance("lazy_" + name, restr, nets, {"test_timeout": 100}, lazy=True, vm_strs=vm_strs)
         inst.prepare()
         inst.parse_rec = rec
         jobs = [{"sched": {"seed": s, "statuses": ["PASS", "FAIL"], "weights": [6, 1]}, "store": {}, "snapshot": True, "cap": 20000} for s in seeds]
